@@ -47,7 +47,8 @@ def compare(ctx: Ctx, what: str, x, y) -> None:
 
 @st.composite
 def mirror_cases(draw):
-    pair = draw(gen.image_pair(min_rows=7, max_rows=16, min_cols=8, max_cols=20, max_val=20, masks=True))
+    pair = draw(gen.image_pair(min_rows=7, max_rows=16, min_cols=8, max_cols=20, max_val=20, masks=True,
+                               conventions="per-image"))
     pipe = draw(gen.legal_pipeline(validation=True, repeat_validation=True))
     a = draw(st.integers(-4, 2))
     return {"pair": pair, "pipeline": pipe, "disp": gen.clamp_interval([a, a + draw(st.integers(0, 5))], pair["W"], pipe)}
@@ -55,11 +56,11 @@ def mirror_cases(draw):
 
 def mirror_body(ctx: Ctx, p: dict) -> None:
     left, right, ml, mr = gen.materialise_pair(p["pair"])
-    conv = dict(valid=p["pair"]["valid"], nodata=p["pair"]["nodata"])
     pipe = gen.pipe_dict(p["pipeline"])
     a, b = p["disp"]
-    A = drive.run_pipeline(left, right, pipe, (a, b), msk_left=ml, msk_right=mr, **conv)
-    B = drive.run_pipeline(right, left, gen.pipe_dict(p["pipeline"]), (-b, -a), msk_left=mr, msk_right=ml, **conv)
+    A = drive.run_pipeline(left, right, pipe, (a, b), msk_left=ml, msk_right=mr, **gen.conv_kwargs(p["pair"]))
+    B = drive.run_pipeline(right, left, gen.pipe_dict(p["pipeline"]), (-b, -a), msk_left=mr, msk_right=ml,
+                           **gen.conv_kwargs(p["pair"], swap=True))
     if "disparity_map" not in A.right or "disparity_map" not in B.right:
         ctx.violation("C08/right-products-missing", "a validation step is configured but the right dataset is empty")
         return
@@ -90,6 +91,8 @@ def mirror_body(ctx: Ctx, p: dict) -> None:
             classes.append("multiscale-asymmetric-interval")
     if ml is not None or mr is not None:
         classes.append("mask")
+    if mr is not None and "valid_right" in p["pair"]:
+        classes.append("right-mask-own-convention")
     ctx.case(p, nontrivial=nt, classes=classes)
 
 
@@ -122,7 +125,8 @@ def noval_body(ctx: Ctx, p: dict) -> None:
 def multiscale_cases(draw):
     """the mirrored problem through a coarse-to-fine pyramid: the right interval grids of every finer scale come from
     the right map and the mirrored user interval"""
-    pair = draw(gen.image_pair(min_rows=24, max_rows=44, min_cols=24, max_cols=48, max_val=30, masks=True, tile_max=8))
+    pair = draw(gen.image_pair(min_rows=24, max_rows=44, min_cols=24, max_cols=48, max_val=30, masks=True, tile_max=8,
+                               conventions="per-image"))
     ns = draw(st.sampled_from([2, 2, 3])) if min(pair["H"], pair["W"]) >= 36 else 2
     w = draw(st.sampled_from([1, 3]))
     steps = [["matching_cost", {"matching_cost_method": draw(st.sampled_from(["sad", "census", "zncc"])) if w > 1 else "ssd",
